@@ -3,16 +3,57 @@
   p256/root{0..3}.pem  p256/isk.pem      P-256 root-of-trust set and image signing key
   p384/root{0..3}.pem  p384/isk.pem      P-384 root-of-trust set and image signing key
   *.pub.pem                               the matching public keys (SubjectPublicKeyInfo)
+  p256/root{0..3}_<cls>.pem  p256/isk_<cls>.pem  (same for p384), <cls> in lzx, lzy, lzxy:
+                                          keys whose public point has a leading ZERO BYTE in X (lzx), in Y (lzy), in both (lzxy) - about one key
+                                          in 128 (lzxy: one in 65536) looks like that, and every documented construction (root key hash, root key
+                                          record, ISK certificate) takes the coordinates at their FIXED width.  The private scalar is derived from a
+                                          label + counter (SHA-512), the counter is searched upwards: the short-coordinate part of the pool is
+                                          reproducible (`cryptography` only, never spsdk.crypto).
   pck128.txt  pck256.txt                  part-common keys (hex)
 Run:  /venv/bin/python gen_keys.py   (refuses to overwrite existing files)
 """
+import hashlib
 import os
 import secrets
+from concurrent.futures import ProcessPoolExecutor
 
 from cryptography.hazmat.primitives import serialization as ser
 from cryptography.hazmat.primitives.asymmetric import ec
 
 HERE = os.path.dirname(os.path.abspath(__file__))
+
+
+CURVES = {"p256": (ec.SECP256R1, 32, 248), "p384": (ec.SECP384R1, 48, 376)}
+CLASSES = ("lzx", "lzy", "lzxy")
+
+
+def derive_short(job):
+    """First key of the label's counter sequence whose point is of the class: (leading byte of X is zero, of Y is zero) = the class, and the
+    byte after a leading zero is not zero (exactly one short byte: a clean representative of the class)."""
+    kind, name, cls = job
+    curve, size, bits = CURVES[kind]   # scalar of `bits` bits: always below the group order
+    ctr = 0
+    while True:
+        d = int.from_bytes(hashlib.sha512(f"verif/sb31/{kind}/{name}_{cls}/{ctr}".encode()).digest() * 2, "big") % (1 << bits) + 1
+        key = ec.derive_private_key(d, curve())
+        n = key.public_key().public_numbers()
+        x, y = n.x.to_bytes(size, "big"), n.y.to_bytes(size, "big")
+        if (x[0] == 0, y[0] == 0) == (cls in ("lzx", "lzxy"), cls in ("lzy", "lzxy")) and (x[0] or x[1]) and (y[0] or y[1]):
+            return kind, name, cls, d, ctr
+        ctr += 1
+
+
+def short_keys():
+    jobs = [(kind, name, cls) for kind in CURVES for name in ("root0", "root1", "root2", "root3", "isk") for cls in CLASSES
+            if not os.path.exists(os.path.join(HERE, kind, f"{name}_{cls}.pem"))]
+    with ProcessPoolExecutor(max_workers=8) as ex:
+        for kind, name, cls, d, ctr in ex.map(derive_short, jobs):
+            key = ec.derive_private_key(d, CURVES[kind][0]())
+            with open(os.path.join(HERE, kind, f"{name}_{cls}.pem"), "wb") as f:
+                f.write(key.private_bytes(ser.Encoding.PEM, ser.PrivateFormat.PKCS8, ser.NoEncryption()))
+            with open(os.path.join(HERE, kind, f"{name}_{cls}.pub.pem"), "wb") as f:
+                f.write(key.public_key().public_bytes(ser.Encoding.PEM, ser.PublicFormat.SubjectPublicKeyInfo))
+            print(f"{kind}/{name}_{cls}: counter {ctr}")
 
 
 def main():
@@ -28,6 +69,7 @@ def main():
                 f.write(key.private_bytes(ser.Encoding.PEM, ser.PrivateFormat.PKCS8, ser.NoEncryption()))
             with open(os.path.join(d, k + ".pub.pem"), "wb") as f:
                 f.write(key.public_key().public_bytes(ser.Encoding.PEM, ser.PublicFormat.SubjectPublicKeyInfo))
+    short_keys()
     for bits in (128, 256):
         p = os.path.join(HERE, f"pck{bits}.txt")
         if not os.path.exists(p):
